@@ -375,11 +375,20 @@ def generate(rng, tier):
     for k in range(n):
         kind = ['poly', 'poly-sharp', 'smooth', 'wild'][k % 4]
         els = {'poly': lambda: polyline(rng, False), 'poly-sharp': lambda: polyline(rng, True), 'smooth': lambda: smooth_chain(rng), 'wild': lambda: wild_cubics(rng)}[kind]()
+        short_arm = False
         if k % 8 == 7:
             # corner-to-smooth cubics with a retracted handle, thin strokes (the regularisation of the zero-length control arm decides the outline)
             kind = 'retracted'
             p0, c, e = [(rng.uniform(-6, 6), rng.uniform(-6, 6)) for _ in range(3)]
-            els = [('M', p0), ('C', p0, c, e)] if rng.random() < 0.6 else [('M', p0), ('C', c, e, e)]
+            if rng.random() < 0.6:
+                # the other control point close to the same end point (control arms of 0.002 .. 0.01, fine tolerances): the regularisation nudge
+                # (tolerance / 4) is comparable to the arm, a wrongly scaled nudge moves the control point by many tolerances
+                ang, ln = rng.uniform(0, 2 * math.pi), 10.0 ** rng.uniform(-2.7, -2)
+                c = (p0[0] + ln * math.cos(ang), p0[1] + ln * math.sin(ang))
+                els = [('M', p0), ('C', p0, c, e)] if rng.random() < 0.5 else [('M', e), ('C', c, p0, p0)]
+                short_arm = True
+            else:
+                els = [('M', p0), ('C', p0, c, e)] if rng.random() < 0.6 else [('M', p0), ('C', c, e, e)]
         join, cap = (k // 4) % 3, (k // 12) % 3
         if rng.random() < 0.3:
             join, cap = rng.randint(0, 2), rng.randint(0, 2)
@@ -387,6 +396,8 @@ def generate(rng, tier):
         tol = 10.0 ** rng.uniform(-3, math.log10(0.5))
         if tol > w / 8:
             tol = max(1e-3, w / 8)
+        if short_arm:
+            tol = 10.0 ** rng.uniform(-3, -2.5)
         ml = rng.choice([1.5, 4.0, 10.0])
         pat, off = [], 0.0
         if rng.random() < 0.3:
@@ -396,6 +407,9 @@ def generate(rng, tier):
 
 
 # ------------------------------------------------------------------ known finding: tight curvature
+
+TIGHT_TURN = 2.0     # radians: cusps, hairpins and loops; a tight but short bend (e.g. next to a short control arm) does not count
+
 
 def tight_points(src, hw):
     """sample points of curved source segments where the radius of curvature is below the half width (incl. cusps: speed ~ 0)"""
@@ -453,7 +467,7 @@ def tight_points(src, hw):
                     dlt = abs(a - prev)
                     turn += min(dlt, 2 * math.pi - dlt)
                 prev = a
-            if turn >= 0.5:
+            if turn >= TIGHT_TURN:
                 # a stretch that is tight but hardly turns (the curvature blows up next to a retracted handle, over a negligible length) is harmless
                 pts.extend(bez_eval(seg, m / N) for m in range(i, k + 1))
             i = k + 1
